@@ -38,6 +38,18 @@ CLAIMS = {
             "consistent_snapshot with VERSION from the pin; adapters pass data only below the bound / "
             "on digest equality. Structural; SHA-256 and byte-level equality not decided.",
             "DESIGN.md §4 C05"),
+    "C01": ("MIR dominance / must-pass-through + value-origin (flow-sensitive reaching definitions) "
+            "analysis of Root::verify_role, Delegations::verify_role, Key::verify and every parse site "
+            "of Signed<_> in lib.rs; who-may-construct query for Repository",
+            "Decides on every path of both threshold verifiers that the counter grows only under the four "
+            "guards (key id listed for the selected role entry, key in the delegating key table, "
+            "Key::verify over canonical bytes of role.signed, first insertion into a set that outlives "
+            "the loop, recorded only after verification) and Ok only via counter >= threshold; that "
+            "Key::verify accepts exactly verify_sig(..).is_ok() with the algorithm expected per key "
+            "variant; that every document parsed from shipped/fetched bytes escapes only through the Ok "
+            "edge of verify_role with the right delegating document/role name. Cryptography itself is "
+            "trusted, not decided.",
+            "DESIGN.md §4 C01"),
 }
 
 NOT_YET = {}
